@@ -307,6 +307,38 @@ theorem box_model_roundtrip_xml [LT K] [DecidableLT K] (fac : String → K) (eps
   obtain ⟨⟨⟨a, b, c⟩, ⟨d, e, f⟩, ⟨g, h, i⟩⟩, ⟨x, y, z⟩⟩ := b
   simp [mapM3, V3.map]
 
+/-- **value_dump_load_end_to_end**: `uc.value_unit` of `uc.model(a, units)` through EVERY encoding: shape and numbers come
+    back through the tree and JSON text; through XML text likewise except that a shape-`(1,)` vector is read as a scalar
+    (`xmlShape`, the known exception, stated exactly). -/
+theorem value_dump_load_end_to_end (fac : String → K) (units : Option String) (a : Arr K)
+    (hw : a.data.length = prodNat a.shape) (hne : prodNat a.shape ≠ 0)
+    (hf : ∀ u, units = some u → factor fac u ≠ 0)
+    (hs : ∀ l, a.data = Data.str l → units = none)
+    (via : String) (hvia : via = "tree" ∨ via = "json" ∨ via = "xml") :
+    valueDumpLoad fac fac via units a
+      = some ⟨if via = "xml" then xmlShape a.shape else a.shape, a.data.castU units⟩ := by
+  obtain ⟨t, ht, hr⟩ := valueUnit_model fac units a hw hne hf hs
+  obtain ⟨t', ht', hr'⟩ := valueUnit_model_xml fac units a hw hne hf hs
+  have : t' = t := by rw [ht] at ht'; cases ht'; rfl
+  subst this
+  unfold valueDumpLoad
+  rw [ht']
+  rcases hvia with h | h | h <;> subst h <;> simp [encode, hr, hr']
+
+/-- **box_dump_load_end_to_end**: a Box whose vectors pass the setter comes back exactly through every encoding. -/
+theorem box_dump_load_end_to_end [LT K] [DecidableLT K] (fac : String → K) (eps : K) (u : Option String)
+    (b : Box K) (hf : ∀ s, u = some s → factor fac s ≠ 0) (hb : cleanVects eps b.vects = b.vects)
+    (via : String) (hvia : via = "tree" ∨ via = "json" ∨ via = "xml") :
+    boxDumpLoad fac fac eps via u b = some b := by
+  obtain ⟨t, ht, hr⟩ := box_model_roundtrip_exact fac eps u b hf hb
+  obtain ⟨t', ht', hr'⟩ := box_model_roundtrip_xml fac eps u b hf
+  have : t' = t := by rw [ht] at ht'; cases ht'; rfl
+  subst this
+  rw [hb] at hr'
+  unfold boxDumpLoad
+  rw [ht']
+  rcases hvia with h | h | h <;> subst h <;> simp [encode, hr, hr']
+
 /-! ## Atoms -/
 
 /-- **atoms_model_roundtrip**: `Atoms(model=atoms.model(prop_unit=…))` has the same `natoms`, the same property
@@ -730,6 +762,18 @@ theorem elastic_model_normal_form (fac : String → K) (eps atol rtol : K) (u : 
   subst this
   refine ⟨t', ?_, by rw [e2]; exact hc, by rw [e3]; exact hc⟩
   simp only [ecModelCS, normalized_fixes_normal_form eps atol rtol muK cs c h hc, e1]
+
+/-- **elastic_dump_load_end_to_end**: elastic constants in the normal form of the requested `crystal_system` (and
+    accepted by the setter) come back exactly — all 36 — through every encoding. -/
+theorem elastic_dump_load_end_to_end (fac : String → K) (eps atol rtol : K) (u : Option String)
+    (muK : Option (K × K)) (cs : String) (c : List K) (h : InForm cs c) (hc : cijSet eps atol rtol c = some c)
+    (hf : ∀ s, u = some s → factor fac s ≠ 0)
+    (via : String) (hvia : via = "tree" ∨ via = "json" ∨ via = "xml") :
+    ecDumpLoad fac fac eps atol rtol via u muK cs c = some c := by
+  obtain ⟨t, ht, hr, hr'⟩ := elastic_model_normal_form fac eps atol rtol u muK cs c h hc hf
+  unfold ecDumpLoad
+  rw [ht]
+  rcases hvia with h | h | h <;> subst h <;> simp [encode, hr, hr']
 
 /-- the seven-constant tetragonal tensor with `C16 = -17 = -C26` passes the setter unchanged: the hypotheses of
     `elastic_model_normal_form` are satisfiable with `C16 ≠ 0`. -/
@@ -1274,6 +1318,36 @@ theorem value_model_injective (fac : String → K) (units : Option String) (a b 
   rw [hr₁] at hr₂
   simp only [Option.some.injEq, Arr.mk.injEq] at hr₂
   exact hr₂
+
+/-- **system_dump_load_two_units_end_to_end** (last clause of the property at the API level): a System dumped under one
+    working-unit configuration and loaded under another, through EVERY text encoding: flags, symbols, masses, natoms,
+    names and shapes unchanged; every box length × the box unit's ratio `g`; a box-scaled property × the same `g` (it
+    follows the cell); every other property × its own unit's ratio (`propTwo`) — i.e. the physical values are those that
+    were written.  `hclean`: the rescaled vectors pass the `vects` setter's clean-up unchanged. -/
+theorem system_dump_load_two_units_end_to_end [LT K] [DecidableLT K] (fac1 fac2 : String → K) (eps : K)
+    (boxUnit : Option String) (s : SystemM K) (hw : s.Wf) (un : String → Option String) (hu : SysUnitsOk s.atoms un)
+    (hclean : cleanVects eps (mapM3 (scaleFn fac1 fac2 boxUnit) s.box.vects) = mapM3 (scaleFn fac1 fac2 boxUnit) s.box.vects)
+    (hdet : M3.det s.box.vects ≠ 0) (via : String) (hvia : via = "tree" ∨ via = "json" ∨ via = "xml") :
+    systemDumpLoad fac1 fac2 eps via boxUnit none none (some (s.atoms.props.map (fun p => (p.1, un p.1)))) s
+      = some ⟨⟨mapM3 (scaleFn fac1 fac2 boxUnit) s.box.vects, s.box.origin.map (scaleFn fac1 fac2 boxUnit)⟩,
+          s.pbc, s.symbols, s.masses,
+          ⟨s.atoms.natoms, s.atoms.props.map (fun p =>
+            if effUnit p.1 (un p.1) = some "scaled" then
+              (p.1, ⟨p.2.shape, .flt (p.2.data.fltD.map (scaleFn fac1 fac2 boxUnit))⟩)
+            else propTwo fac1 fac2 un p)⟩⟩ := by
+  obtain ⟨t, ht, hr⟩ := system_model_two_units fac1 fac2 eps boxUnit s hw un hu hclean hdet
+  obtain ⟨t1, ht1, hr1⟩ := system_model_two fac1 fac2 eps boxUnit s hw un hu
+  obtain ⟨t2, ht2, hr2⟩ := system_model_two_xml fac1 fac2 eps boxUnit s hw un hu
+  have e1 : t1 = t := by rw [ht] at ht1; cases ht1; rfl
+  have e2 : t2 = t := by rw [ht] at ht2; cases ht2; rfl
+  subst e1
+  subst e2
+  have hx := hr2
+  rw [← hr1, hr] at hx
+  unfold systemDumpLoad systemModelCall
+  simp only [resolveCall, Option.bind_some]
+  rw [ht2]
+  rcases hvia with h | h | h <;> subst h <;> simp [encode, hr, hx]
 
 /-- a format name that is none of the three is refused at the encoding step, whatever the System. -/
 theorem system_dump_load_refuses_format [LT K] [DecidableLT K] (facW facR : String → K) (eps : K) (via : String)
